@@ -16,66 +16,67 @@ Definition F_T_ctx : field := 5.
 Definition F_T_cleaning : field := 6.
 Definition F_T_cancelCtx : field := 7.
 Definition F_T_cleanups : field := 8.
-Definition F_Generator_impl : field := 9.
-Definition F_pkg_anyRuneGen : field := 10.
-Definition F_Generator_str : field := 11.
-Definition F_pkg_flags : field := 12.
-Definition F_pkg_tracebackBlacklist : field := 13.
-Definition F_asAnyGen_gen : field := 14.
-Definition F_castGen_gen : field := 15.
-Definition F_castGen_typ : field := 16.
-Definition F_customGen_fn : field := 17.
-Definition F_deferredGen_fn : field := 18.
-Definition F_deferredGen_g : field := 19.
-Definition F_filteredGen_g : field := 20.
-Definition F_filteredGen_fn : field := 21.
-Definition F_floatGen_min : field := 22.
-Definition F_floatGen_minVal : field := 23.
-Definition F_floatGen_max : field := 24.
-Definition F_floatGen_maxVal : field := 25.
-Definition F_integerGen_hasMin : field := 26.
-Definition F_integerGen_hasMax : field := 27.
-Definition F_integerKindInfo_signed : field := 28.
-Definition F_integerGen_kind : field := 29.
-Definition F_integerKindInfo_smin : field := 30.
-Definition F_integerKindInfo_smax : field := 31.
-Definition F_integerGen_umin : field := 32.
-Definition F_integerKindInfo_umax : field := 33.
-Definition F_makeGen_gen : field := 34.
-Definition F_mapGen_key : field := 35.
-Definition F_mapGen_minLen : field := 36.
-Definition F_mapGen_maxLen : field := 37.
-Definition F_mapGen_val : field := 38.
-Definition F_mapGen_keyFn : field := 39.
-Definition F_mappedGen_g : field := 40.
-Definition F_mappedGen_fn : field := 41.
-Definition F_oneOfGen_gens : field := 42.
-Definition F_permGen_slice : field := 43.
-Definition F_ptrGen_elem : field := 44.
-Definition F_ptrGen_allowNil : field := 45.
-Definition F_regexpGen_expr : field := 46.
-Definition F_regexpGen_syn : field := 47.
-Definition F_pkg_regexpNames : field := 48.
-Definition F_pkg_charClassGens : field := 49.
-Definition F_pkg_expandedTables : field := 50.
-Definition F_pkg_anyRuneGenNoNL : field := 51.
-Definition F_regexpGen_re : field := 52.
-Definition F_runeGen_default_ : field := 53.
-Definition F_runeGen_runes : field := 54.
-Definition F_runeGen_tables : field := 55.
-Definition F_runeGen_die : field := 56.
-Definition F_loadedDie_table : field := 57.
-Definition F_sampledGen_slice : field := 58.
-Definition F_sliceGen_keyFn : field := 59.
-Definition F_sliceGen_minLen : field := 60.
-Definition F_sliceGen_maxLen : field := 61.
-Definition F_sliceGen_elem : field := 62.
-Definition F_stringGen_elem : field := 63.
-Definition F_stringGen_minRunes : field := 64.
-Definition F_stringGen_maxRunes : field := 65.
-Definition F_stringGen_maxLen : field := 66.
+Definition F_T_skipping : field := 9.
+Definition F_Generator_impl : field := 10.
+Definition F_pkg_anyRuneGen : field := 11.
+Definition F_Generator_str : field := 12.
+Definition F_pkg_flags : field := 13.
+Definition F_pkg_tracebackBlacklist : field := 14.
+Definition F_asAnyGen_gen : field := 15.
+Definition F_castGen_gen : field := 16.
+Definition F_castGen_typ : field := 17.
+Definition F_customGen_fn : field := 18.
+Definition F_deferredGen_fn : field := 19.
+Definition F_deferredGen_g : field := 20.
+Definition F_filteredGen_g : field := 21.
+Definition F_filteredGen_fn : field := 22.
+Definition F_floatGen_min : field := 23.
+Definition F_floatGen_minVal : field := 24.
+Definition F_floatGen_max : field := 25.
+Definition F_floatGen_maxVal : field := 26.
+Definition F_integerGen_hasMin : field := 27.
+Definition F_integerGen_hasMax : field := 28.
+Definition F_integerKindInfo_signed : field := 29.
+Definition F_integerGen_kind : field := 30.
+Definition F_integerKindInfo_smin : field := 31.
+Definition F_integerKindInfo_smax : field := 32.
+Definition F_integerGen_umin : field := 33.
+Definition F_integerKindInfo_umax : field := 34.
+Definition F_makeGen_gen : field := 35.
+Definition F_mapGen_key : field := 36.
+Definition F_mapGen_minLen : field := 37.
+Definition F_mapGen_maxLen : field := 38.
+Definition F_mapGen_val : field := 39.
+Definition F_mapGen_keyFn : field := 40.
+Definition F_mappedGen_g : field := 41.
+Definition F_mappedGen_fn : field := 42.
+Definition F_oneOfGen_gens : field := 43.
+Definition F_permGen_slice : field := 44.
+Definition F_ptrGen_elem : field := 45.
+Definition F_ptrGen_allowNil : field := 46.
+Definition F_regexpGen_expr : field := 47.
+Definition F_regexpGen_syn : field := 48.
+Definition F_pkg_regexpNames : field := 49.
+Definition F_pkg_charClassGens : field := 50.
+Definition F_pkg_expandedTables : field := 51.
+Definition F_pkg_anyRuneGenNoNL : field := 52.
+Definition F_regexpGen_re : field := 53.
+Definition F_runeGen_default_ : field := 54.
+Definition F_runeGen_runes : field := 55.
+Definition F_runeGen_tables : field := 56.
+Definition F_runeGen_die : field := 57.
+Definition F_loadedDie_table : field := 58.
+Definition F_sampledGen_slice : field := 59.
+Definition F_sliceGen_keyFn : field := 60.
+Definition F_sliceGen_minLen : field := 61.
+Definition F_sliceGen_maxLen : field := 62.
+Definition F_sliceGen_elem : field := 63.
+Definition F_stringGen_elem : field := 64.
+Definition F_stringGen_minRunes : field := 65.
+Definition F_stringGen_maxRunes : field := 66.
+Definition F_stringGen_maxLen : field := 67.
 
-Definition field_names : list (field * string) := [(0, "T.tb"); (1, "T.rawLog"); (2, "T.tbLog"); (3, "T.failed"); (4, "T.parent"); (5, "T.ctx"); (6, "T.cleaning"); (7, "T.cancelCtx"); (8, "T.cleanups"); (9, "Generator.impl"); (10, "pkg.anyRuneGen"); (11, "Generator.str"); (12, "pkg.flags"); (13, "pkg.tracebackBlacklist"); (14, "asAnyGen.gen"); (15, "castGen.gen"); (16, "castGen.typ"); (17, "customGen.fn"); (18, "deferredGen.fn"); (19, "deferredGen.g"); (20, "filteredGen.g"); (21, "filteredGen.fn"); (22, "floatGen.min"); (23, "floatGen.minVal"); (24, "floatGen.max"); (25, "floatGen.maxVal"); (26, "integerGen.hasMin"); (27, "integerGen.hasMax"); (28, "integerKindInfo.signed"); (29, "integerGen.kind"); (30, "integerKindInfo.smin"); (31, "integerKindInfo.smax"); (32, "integerGen.umin"); (33, "integerKindInfo.umax"); (34, "makeGen.gen"); (35, "mapGen.key"); (36, "mapGen.minLen"); (37, "mapGen.maxLen"); (38, "mapGen.val"); (39, "mapGen.keyFn"); (40, "mappedGen.g"); (41, "mappedGen.fn"); (42, "oneOfGen.gens"); (43, "permGen.slice"); (44, "ptrGen.elem"); (45, "ptrGen.allowNil"); (46, "regexpGen.expr"); (47, "regexpGen.syn"); (48, "pkg.regexpNames"); (49, "pkg.charClassGens"); (50, "pkg.expandedTables"); (51, "pkg.anyRuneGenNoNL"); (52, "regexpGen.re"); (53, "runeGen.default_"); (54, "runeGen.runes"); (55, "runeGen.tables"); (56, "runeGen.die"); (57, "loadedDie.table"); (58, "sampledGen.slice"); (59, "sliceGen.keyFn"); (60, "sliceGen.minLen"); (61, "sliceGen.maxLen"); (62, "sliceGen.elem"); (63, "stringGen.elem"); (64, "stringGen.minRunes"); (65, "stringGen.maxRunes"); (66, "stringGen.maxLen")].
+Definition field_names : list (field * string) := [(0, "T.tb"); (1, "T.rawLog"); (2, "T.tbLog"); (3, "T.failed"); (4, "T.parent"); (5, "T.ctx"); (6, "T.cleaning"); (7, "T.cancelCtx"); (8, "T.cleanups"); (9, "T.skipping"); (10, "Generator.impl"); (11, "pkg.anyRuneGen"); (12, "Generator.str"); (13, "pkg.flags"); (14, "pkg.tracebackBlacklist"); (15, "asAnyGen.gen"); (16, "castGen.gen"); (17, "castGen.typ"); (18, "customGen.fn"); (19, "deferredGen.fn"); (20, "deferredGen.g"); (21, "filteredGen.g"); (22, "filteredGen.fn"); (23, "floatGen.min"); (24, "floatGen.minVal"); (25, "floatGen.max"); (26, "floatGen.maxVal"); (27, "integerGen.hasMin"); (28, "integerGen.hasMax"); (29, "integerKindInfo.signed"); (30, "integerGen.kind"); (31, "integerKindInfo.smin"); (32, "integerKindInfo.smax"); (33, "integerGen.umin"); (34, "integerKindInfo.umax"); (35, "makeGen.gen"); (36, "mapGen.key"); (37, "mapGen.minLen"); (38, "mapGen.maxLen"); (39, "mapGen.val"); (40, "mapGen.keyFn"); (41, "mappedGen.g"); (42, "mappedGen.fn"); (43, "oneOfGen.gens"); (44, "permGen.slice"); (45, "ptrGen.elem"); (46, "ptrGen.allowNil"); (47, "regexpGen.expr"); (48, "regexpGen.syn"); (49, "pkg.regexpNames"); (50, "pkg.charClassGens"); (51, "pkg.expandedTables"); (52, "pkg.anyRuneGenNoNL"); (53, "regexpGen.re"); (54, "runeGen.default_"); (55, "runeGen.runes"); (56, "runeGen.tables"); (57, "runeGen.die"); (58, "loadedDie.table"); (59, "sampledGen.slice"); (60, "sliceGen.keyFn"); (61, "sliceGen.minLen"); (62, "sliceGen.maxLen"); (63, "sliceGen.elem"); (64, "stringGen.elem"); (65, "stringGen.minRunes"); (66, "stringGen.maxRunes"); (67, "stringGen.maxLen")].
 
 Definition MU_T_mu : mutex := 0.
 Definition O_Generator_strOnce : once := 0.
@@ -93,7 +94,7 @@ Definition t_methods : table := [
   ("T.Name", [
     IAcc F_T_tb false;
     ICall "tb.Name"]);
-  (* engine.go:719 *)
+  (* engine.go:724 *)
   ("T.Log", [
     IAcc F_T_rawLog false;
     IAcc F_T_rawLog false;
@@ -103,7 +104,7 @@ Definition t_methods : table := [
     ICall "t.tb.Helper";
     IAcc F_T_tb false;
     ICall "t.tb.Log"]);
-  (* engine.go:710 *)
+  (* engine.go:715 *)
   ("T.Logf", [
     IAcc F_T_rawLog false;
     IAcc F_T_rawLog false;
@@ -113,7 +114,7 @@ Definition t_methods : table := [
     ICall "t.tb.Helper";
     IAcc F_T_tb false;
     ICall "t.tb.Logf"]);
-  (* engine.go:767 *)
+  (* engine.go:772 *)
   ("T.Error", [
     IAcc F_T_tbLog false;
     IAcc F_T_tb false;
@@ -133,7 +134,7 @@ Definition t_methods : table := [
       IAcc F_T_parent false;
       ICall "t.parent.fail";
       IAcc F_T_failed false]]);
-  (* engine.go:758 *)
+  (* engine.go:763 *)
   ("T.Errorf", [
     IAcc F_T_tbLog false;
     IAcc F_T_tb false;
@@ -153,7 +154,7 @@ Definition t_methods : table := [
       IAcc F_T_parent false;
       ICall "t.parent.fail";
       IAcc F_T_failed false]]);
-  (* engine.go:797 *)
+  (* engine.go:802 *)
   ("T.Fail", [
     ILocked MU_T_mu MW [
       IAcc F_T_failed true;
@@ -161,11 +162,11 @@ Definition t_methods : table := [
       IAcc F_T_parent false;
       ICall "t.parent.fail";
       IAcc F_T_failed false]]);
-  (* engine.go:801 *)
+  (* engine.go:806 *)
   ("T.Failed", [
     ILocked MU_T_mu MR [
       IAcc F_T_failed false]]);
-  (* engine.go:574 *)
+  (* engine.go:575 *)
   ("T.Context", [
     ILocked MU_T_mu MR [
       IAcc F_T_ctx false];
@@ -182,12 +183,12 @@ Definition t_methods : table := [
       ICall "context.WithCancel";
       IAcc F_T_ctx true;
       IAcc F_T_cancelCtx true]]);
-  (* engine.go:633 *)
+  (* engine.go:634 *)
   ("T.Cleanup", [
     ILocked MU_T_mu MW [
       IAcc F_T_cleanups false;
       IAcc F_T_cleanups true]]);
-  (* engine.go:738 *)
+  (* engine.go:743 *)
   ("T.Skip", [
     IAcc F_T_tbLog false;
     IAcc F_T_tb false;
@@ -200,8 +201,9 @@ Definition t_methods : table := [
     ICall "t.tb.Helper";
     IAcc F_T_tb false;
     ICall "t.tb.Log";
-    ICall "fmt.Sprint"]);
-  (* engine.go:729 *)
+    ICall "fmt.Sprint";
+    IAtomic F_T_skipping true]);
+  (* engine.go:734 *)
   ("T.Skipf", [
     IAcc F_T_tbLog false;
     IAcc F_T_tb false;
@@ -214,10 +216,12 @@ Definition t_methods : table := [
     ICall "t.tb.Helper";
     IAcc F_T_tb false;
     ICall "t.tb.Logf";
-    ICall "fmt.Sprintf"]);
-  (* engine.go:753 *)
-  ("T.SkipNow", []);
-  (* engine.go:785 *)
+    ICall "fmt.Sprintf";
+    IAtomic F_T_skipping true]);
+  (* engine.go:758 *)
+  ("T.SkipNow", [
+    IAtomic F_T_skipping true]);
+  (* engine.go:790 *)
   ("T.Fatal", [
     IAcc F_T_tbLog false;
     IAcc F_T_tb false;
@@ -237,7 +241,7 @@ Definition t_methods : table := [
       IAcc F_T_parent false;
       ICall "t.parent.fail";
       IAcc F_T_failed false]]);
-  (* engine.go:776 *)
+  (* engine.go:781 *)
   ("T.Fatalf", [
     IAcc F_T_tbLog false;
     IAcc F_T_tb false;
@@ -257,7 +261,7 @@ Definition t_methods : table := [
       IAcc F_T_parent false;
       ICall "t.parent.fail";
       IAcc F_T_failed false]]);
-  (* engine.go:793 *)
+  (* engine.go:798 *)
   ("T.FailNow", [
     ILocked MU_T_mu MW [
       IAcc F_T_failed true;
@@ -265,7 +269,7 @@ Definition t_methods : table := [
       IAcc F_T_parent false;
       ICall "t.parent.fail";
       IAcc F_T_failed false]]);
-  (* engine.go:812 *)
+  (* engine.go:818 *)
   ("T.fail", [
     ILocked MU_T_mu MW [
       IAcc F_T_failed true;
@@ -273,17 +277,17 @@ Definition t_methods : table := [
       IAcc F_T_parent false;
       ICall "t.parent.fail";
       IAcc F_T_failed false]]);
-  (* engine.go:851 *)
+  (* engine.go:857 *)
   ("T.failOnError", [
     ILocked MU_T_mu MR [
       IAcc F_T_failed false;
       IAcc F_T_failed false]]);
-  (* engine.go:829 *)
+  (* engine.go:835 *)
   ("T.failedError", [
     ILocked MU_T_mu MR [
       IAcc F_T_failed false;
       IAcc F_T_failed false]]);
-  (* engine.go:642 *)
+  (* engine.go:643 *)
   ("T.cleanup", [
     IAtomic F_T_cleaning true;
     ILocked MU_T_mu MW [
@@ -298,14 +302,17 @@ Definition t_methods : table := [
       IAcc F_T_cleanups false;
       IAcc F_T_cleanups false;
       IAcc F_T_cleanups true];
+    IAtomic F_T_skipping true;
     ICall "cleanup";
+    IAcc F_T_parent false;
+    IAtomic F_T_skipping false;
     ICall "root.mu.Lock";
     ICall "root.mu.Unlock";
     ILocked MU_T_mu MW [
       IAcc F_T_cleanups false];
     ICall "T.cleanup (recursive)";
     IAtomic F_T_cleaning true]);
-  (* engine.go:559 *)
+  (* engine.go:560 *)
   ("T.shouldLog", [
     IAcc F_T_rawLog false;
     IAcc F_T_tbLog false])
@@ -376,11 +383,11 @@ Definition g_methods : table := [
   ("Generator.Filter", []);
   (* generator.go:99 *)
   ("Generator.AsAny", []);
-  (* combinators.go:289 *)
+  (* combinators.go:293 *)
   ("asAnyGen.String", [
     IAcc F_asAnyGen_gen false;
     ICall "fmt.Sprintf"]);
-  (* combinators.go:293 *)
+  (* combinators.go:297 *)
   ("asAnyGen.value", [
     IAcc F_asAnyGen_gen false;
     IAcc F_pkg_anyRuneGen false;
@@ -417,10 +424,10 @@ Definition g_methods : table := [
     ICall "t.failOnError";
     ICall "t.cleanup";
     ICall "t.Failed"]);
-  (* combinators.go:75 *)
+  (* combinators.go:79 *)
   ("deferredGen.String", [
     ICall "fmt.Sprintf"]);
-  (* combinators.go:80 *)
+  (* combinators.go:84 *)
   ("deferredGen.value", [
     IOnce O_deferredGen_once [
       IAcc F_deferredGen_fn false;
@@ -429,11 +436,11 @@ Definition g_methods : table := [
     IAcc F_deferredGen_g false;
     IAcc F_pkg_anyRuneGen false;
     ICall "g.g.value"]);
-  (* combinators.go:99 *)
+  (* combinators.go:103 *)
   ("filteredGen.String", [
     IAcc F_filteredGen_g false;
     ICall "fmt.Sprintf"]);
-  (* combinators.go:103 *)
+  (* combinators.go:107 *)
   ("filteredGen.value", [
     IAcc F_filteredGen_g false;
     IAcc F_pkg_anyRuneGen false;
@@ -575,45 +582,45 @@ Definition g_methods : table := [
     IAcc F_mapGen_keyFn false;
     ICall "g.keyFn";
     ICall "repeat.reject"]);
-  (* combinators.go:143 *)
+  (* combinators.go:147 *)
   ("mappedGen.String", [
     IAcc F_mappedGen_g false;
     IAcc F_mappedGen_fn false;
     ICall "fmt.Sprintf"]);
-  (* combinators.go:147 *)
+  (* combinators.go:151 *)
   ("mappedGen.value", [
     IAcc F_mappedGen_g false;
     IAcc F_pkg_anyRuneGen false;
     ICall "g.g.value";
     IAcc F_mappedGen_fn false;
     ICall "g.fn"]);
-  (* combinators.go:233 *)
+  (* combinators.go:237 *)
   ("oneOfGen.String", [
     IAcc F_oneOfGen_gens false;
     IAcc F_oneOfGen_gens false;
     ICall "g.String";
     ICall "strings.Join";
     ICall "fmt.Sprintf"]);
-  (* combinators.go:242 *)
+  (* combinators.go:246 *)
   ("oneOfGen.value", [
     IAcc F_oneOfGen_gens false;
     IAcc F_oneOfGen_gens false;
     IAcc F_pkg_anyRuneGen false;
     ICall "g.gens.value"]);
-  (* combinators.go:196 *)
+  (* combinators.go:200 *)
   ("permGen.String", [
     IAcc F_permGen_slice false;
     ICall "fmt.Sprintf"]);
-  (* combinators.go:201 *)
+  (* combinators.go:205 *)
   ("permGen.value", [
     IAcc F_permGen_slice false;
     ICall "repeat.more"]);
-  (* combinators.go:261 *)
+  (* combinators.go:265 *)
   ("ptrGen.String", [
     IAcc F_ptrGen_elem false;
     IAcc F_ptrGen_allowNil false;
     ICall "fmt.Sprintf"]);
-  (* combinators.go:265 *)
+  (* combinators.go:269 *)
   ("ptrGen.value", [
     IAcc F_ptrGen_allowNil false;
     IAcc F_ptrGen_elem false;
@@ -702,7 +709,7 @@ Definition g_methods : table := [
     IAcc F_runeGen_runes false;
     IAcc F_runeGen_tables false;
     IAcc F_runeGen_tables false]);
-  (* combinators.go:171 *)
+  (* combinators.go:175 *)
   ("sampledGen.String", [
     IAcc F_sampledGen_slice false;
     IAcc F_sampledGen_slice false;
@@ -710,7 +717,7 @@ Definition g_methods : table := [
     IAcc F_sampledGen_slice false;
     IAcc F_sampledGen_slice false;
     ICall "fmt.Sprintf"]);
-  (* combinators.go:179 *)
+  (* combinators.go:183 *)
   ("sampledGen.value", [
     IAcc F_sampledGen_slice false;
     IAcc F_sampledGen_slice false]);
